@@ -145,15 +145,17 @@ structure UrlPath where
 deriving DecidableEq, Repr
 
 /-- the `k=v` lists of params (`;`) and query (`&`) -/
+def kvStep (m : List (Bytes × Bytes)) (chunk : Bytes) : Option (List (Bytes × Bytes)) :=
+  match splitOn 61 chunk with
+  | [k, v] =>
+    if k.isEmpty then none
+    else match urlDecode k, urlDecode v with
+      | some k', some v' => some (mapInsert k' v' m)
+      | _, _ => none
+  | _ => none
+
 def parseKVs (sep : UInt8) (s : Bytes) : Option (List (Bytes × Bytes)) :=
-  (splitOn sep s).foldlM (init := []) fun m chunk =>
-    match splitOn 61 chunk with
-    | [k, v] =>
-      if k.isEmpty then none
-      else match urlDecode k, urlDecode v with
-        | some k', some v' => some (mapInsert k' v' m)
-        | _, _ => none
-    | _ => none
+  (splitOn sep s).foldlM (init := []) kvStep
 
 /-- `StringToUrlPath`; `none` = returned false -/
 def parseUrlPath (s : Bytes) : Option UrlPath :=
